@@ -357,7 +357,8 @@ def _compute_label_chunk_bitmask(labels, chunks, nlabels):
     approx_chunk_size = math.prod(c[0] for c in chunks)
 
     # Shortcut for 1D with size-1 chunks
-    if shape == (nchunks,):
+    # (the total length equals the number of chunks for chunks like (2, 0, 1) too)
+    if len(chunks) == 1 and all(c == 1 for c in chunks[0]):
         rows_array = np.arange(nchunks)
         cols_array = labels
         mask = labels >= 0
